@@ -560,8 +560,15 @@ impl<T: Encode + BitStore, O: BitOrder> Encode for BitVec<T, O> {
         session: &mut Session,
     ) -> io::Result<()> {
         encoder.emit_usize(self.len())?;
-        let underlying = self.as_raw_slice();
-        for item in underlying {
+
+        // Encode the storage elements of an aligned copy whose dead bits are
+        // cleared, so that the element sequence depends only on the bits
+        // and not on the head offset of `self`.
+        let mut aligned = self.clone();
+        aligned.force_align();
+        aligned.set_uninitialized(false);
+
+        for item in aligned.as_raw_slice() {
             item.encode(encoder, plugin, session)?;
         }
         Ok(())
